@@ -279,7 +279,8 @@ def build(c: dict, seed: int, unsupported: Optional[Tuple[str, Any]] = None, pro
             idx = torch.where(idx == c["padding_idx"] % V, (idx + 1) % V, idx)
         kw = dict(padding_idx=c["padding_idx"], max_norm=c["max_norm"], norm_type=c["norm_type"])
         # max_norm renormalises the weight *in place* in both implementations: work on copies
-        return Built(lambda w: U.embedding(idx, w * 1.0, **kw, **ukw), lambda w: F.embedding(idx, w * 1.0, **kw), [T([V, c["dim"]], 1)],
+        # (the reference works on a copy; the library is given the caller's tensor itself: it must neither modify it nor leave anything attached to it)
+        return Built(lambda w: U.embedding(idx, w, **kw, **ukw), lambda w: F.embedding(idx, w * 1.0, **kw), [T([V, c["dim"]], 1)],
                      ["weight"], [], dict(idx=idx))
     if op == "sdpa":
         b = c["b"]
